@@ -1,6 +1,7 @@
 package main
 
 import (
+	"crypto/tls"
 	"bytes"
 	"context"
 	"errors"
@@ -30,6 +31,7 @@ type SmtpMsg struct {
 	RenderFail bool     `json:"render_fail,omitempty"`
 	FailEarly  bool     `json:"fail_early,omitempty"` // producer fails before emitting data
 	Body       string   `json:"body,omitempty"`
+	BigBody    int      `json:"big_body,omitempty"` // a generated body of this many bytes (lines of text) instead of Body
 }
 
 type SmtpScenario struct {
@@ -40,6 +42,8 @@ type SmtpScenario struct {
 	DSN        bool              `json:"dsn,omitempty"`
 	DSNReturn  string            `json:"dsn_return,omitempty"`
 	DSNNotify  []string          `json:"dsn_notify,omitempty"`
+	TLS        string            `json:"tls,omitempty"` // "" = NoTLS, "mandatory", "opportunistic" (STARTTLS with a real handshake)
+	Timeout    time.Duration     `json:"-"`             // real-time timeout (only matters inside TLS, where waits are real)
 	Msgs       []SmtpMsg         `json:"msgs"`
 }
 
@@ -127,6 +131,10 @@ func buildSmtpMsg(i int, sm SmtpMsg) *mail.Msg {
 	if body == "" {
 		body = fmt.Sprintf("This is message %d.\r\n.leading dot\r\n..two dots\r\nlast line", i)
 	}
+	if sm.BigBody > 0 {
+		line := fmt.Sprintf("message %d, a line of the big body .......................................\r\n", i)
+		body = strings.Repeat(line, sm.BigBody/len(line)+1)
+	}
 	if sm.RenderFail {
 		content := []byte(body)
 		if sm.FailEarly {
@@ -148,7 +156,22 @@ func RunScenario(sc *SmtpScenario) (run *SmtpRun, msgs []*mail.Msg) {
 		conn = NewScriptConn(srv)
 		return conn, nil
 	}
-	opts := []mail.Option{mail.WithTLSPolicy(mail.NoTLS), mail.WithDialContextFunc(dial), mail.WithTimeout(5 * time.Second)}
+	timeout := sc.Timeout
+	if timeout == 0 {
+		timeout = 5 * time.Second
+	}
+	opts := []mail.Option{mail.WithTLSPolicy(mail.NoTLS), mail.WithDialContextFunc(dial), mail.WithTimeout(timeout)}
+	if sc.TLS != "" {
+		tlsMaterial()
+		srv.TLSGood = tlsGoodCfg["verif.example"]
+		srv.TLSBad = tlsWrongName["verif.example"]
+		srv.tlsDone = make(chan struct{})
+		pol := mail.TLSMandatory
+		if sc.TLS == "opportunistic" {
+			pol = mail.TLSOpportunistic
+		}
+		opts = append(opts, mail.WithTLSPolicy(pol), mail.WithTLSConfig(&tls.Config{ServerName: "verif.example", RootCAs: tlsRoots, MinVersion: tls.VersionTLS12}))
+	}
 	if sc.Helo != "" {
 		opts = append(opts, mail.WithHELO(sc.Helo))
 	}
@@ -177,14 +200,19 @@ func RunScenario(sc *SmtpScenario) (run *SmtpRun, msgs []*mail.Msg) {
 	for i, sm := range sc.Msgs {
 		msgs = append(msgs, buildSmtpMsg(i, sm))
 	}
-	func() {
+	if !watchdog(60*time.Second, func() {
 		defer func() {
 			if r := recover(); r != nil {
 				run.Panic = r
 			}
 		}()
 		run.Err = client.DialAndSendWithContext(context.Background(), msgs...)
-	}()
+	}) {
+		run.Panic = "the call did not return within 60 s of real time (all waits of the scripted peer are virtual or bounded by the configured timeout)"
+		if conn != nil {
+			_ = conn.Close()
+		}
+	}
 	if run.Err != nil {
 		switch {
 		case strings.HasPrefix(run.Err.Error(), "dial failed"):
@@ -195,6 +223,12 @@ func RunScenario(sc *SmtpScenario) (run *SmtpRun, msgs []*mail.Msg) {
 			run.Stage = "close"
 		default:
 			run.Stage = "other"
+		}
+	}
+	if conn != nil && conn.IsClosed() && srv.tlsStarted {
+		select {
+		case <-srv.tlsDone:
+		case <-time.After(500 * time.Millisecond):
 		}
 	}
 	srv.mu.Lock()
@@ -287,6 +321,10 @@ func encAct(a SrvAction) string {
 		return "s"
 	case "garbage":
 		return "g"
+	case "tlsbad":
+		return "t"
+	case "deaf":
+		return "f"
 	case "reply":
 		if a.Text == "" {
 			return fmt.Sprintf("r%03d", a.Code)
@@ -332,7 +370,7 @@ func (sc *SmtpScenario) modelLine(run *SmtpRun) string {
 		dsnNotify = strings.Join(sc.DSNNotify, ",")
 	}
 	toks := []string{"smtp", "dialsend", encLS(sc.Caps), encLS(sc.scriptList(n)), encS(heloOf(sc)), encBool(sc.NoNoop), encBool(sc.DSN || sc.DSNReturn != "" || len(sc.DSNNotify) > 0),
-		encS(dsnReturn), encS(dsnNotify)}
+		encS(dsnReturn), encS(dsnNotify), fmt.Sprintf("#%d", map[string]int{"mandatory": 0, "opportunistic": 1, "": 2}[sc.TLS])}
 	for i, sm := range sc.Msgs {
 		sender := "-"
 		if run.Msgs[i].Sender != "" || sm.From != "" || sm.EnvFrom != "" {
@@ -341,7 +379,7 @@ func (sc *SmtpScenario) modelLine(run *SmtpRun) string {
 				sender = "-"
 			}
 		}
-		toks = append(toks, "m", encBool(sm.EightBit), sender, encLS(run.Msgs[i].AllRcpts), encBool(!sm.RenderFail))
+		toks = append(toks, "m", encBool(sm.EightBit), sender, encLS(run.Msgs[i].AllRcpts), encBool(!sm.RenderFail), encBool(sm.BigBody > 2*transportBuffer))
 	}
 	return strings.Join(toks, " ")
 }
@@ -363,7 +401,7 @@ func (run *SmtpRun) wantLine() string {
 	}
 	switch run.Stage {
 	case "dial":
-		dial = errTag(rootErr)
+		dial = dialErrTag(rootErr)
 	case "close":
 		// "failed to close connection: failed to close SMTP client: <err>"
 		closeE = errTag(run.Err)
